@@ -278,6 +278,41 @@ pub fn run(ctx: &mut Ctx) {
     });
     ctx.require(&r, &["accepted", "rejected"]);
 
+    // e'. Date::and_hms on EVERY date: out-of-domain tuples rejected, in-domain ones equal the sum
+    ctx.sweep("and_hms_on_all_dates", "all dates x {23:59:60, 24:00:00, 23:60:00, 23:59:59 + 1,000,000 µs (must fail), 23:59:59.999999, 00:00:00 (must equal date + time)}", total, 4096, |range, acc| {
+        for idx in range {
+            let n = cal.min_day + idx as i32;
+            let d = Date::try_from_days(n).unwrap();
+            acc.states += 1;
+            acc.t(6);
+            let got = guard(|| (d.and_hms(23, 59, 60, 0).is_err(), d.and_hms(24, 0, 0, 0).is_err(), d.and_hms(23, 60, 0, 0).is_err(), d.and_hms(23, 59, 59, 1_000_000).is_err(),
+                d.and_hms(23, 59, 59, 999_999).map(|t| t.usecs()).ok(), d.and_hms(0, 0, 0, 0).map(|t| t.usecs()).ok()));
+            if got != Ok((true, true, true, true, Some(n as i64 * US_DAY + US_DAY - 1), Some(n as i64 * US_DAY))) {
+                acc.fail("C07:Date:and_hms:acceptance-not-exact", idx, || (format!("Date(day {n}).and_hms with 23:59:60 / 24:00:00 / 23:60:00 / usec 1000000 / 23:59:59.999999 / 00:00:00"), "four errors, then date + time".into(), format!("{got:?}"), String::new()));
+            } else { acc.cls("consistent"); }
+        }
+    });
+
+    if ctx.thorough() {
+        // every microsecond of the last day before the epoch as a timestamp (pre-1970 floor logic)
+        ctx.sweep("all_usecs_of_1969_12_31_as_timestamps", "every microsecond of 1969-12-31 as a Timestamp: date(), year/month/day, extract, Time::from", US_DAY as u64, 1 << 24, |range, acc| {
+            let n = range.end - range.start;
+            let dm1 = Date::try_from_days(-1).unwrap();
+            for idx in range {
+                let t = idx as i64;
+                let ts = Timestamp::try_from_usecs(-US_DAY + t).unwrap();
+                let ok = DateTime::date(&ts) == Some(dm1) && ts.day() == Some(31) && ts.month() == Some(12) && ts.year() == Some(1969) && ts.extract().0 == dm1 && ts.extract().1.usecs() == t && Time::from(ts).usecs() == t;
+                if !ok {
+                    acc.fail("C07:timestamp:pair-split-mismatch", idx, || (format!("Timestamp({}) = 1969-12-31 + {t} µs", -US_DAY + t), "date 1969-12-31, that time of day".into(), format!("date()={:?} ymd=({:?},{:?},{:?}) extract={:?}", DateTime::date(&ts), ts.year(), ts.month(), ts.day(), ts.extract()), String::new()));
+                }
+            }
+            acc.states += n;
+            acc.t(n);
+            acc.nontrivial += n;
+            acc.cls_n("pre_epoch_nonzero_time", n);
+        });
+    }
+
     // f. dates: Eq / Ord / Hash along the enumeration
     ctx.sweep("date_eq_ord_hash", "all dates: built three ways hash equal; consecutive dates ordered", total, 8192, |range, acc| {
         let mut c = cal.at(cal.min_day + range.start as i32);
